@@ -775,5 +775,11 @@ def o7_plumbing(chk: Check) -> None:
     )
 
 
+def rfwd_forwarding(chk: Check) -> None:
+    from . import shared
+
+    shared.forwarding_rule(chk, "C05.FWD", ('engine/phases/', 'engine/recorder.py:', 'checks.py:', 'generation/case.py:Case.validate_response', 'generation/case.py:Case.call_and_validate', 'cli/commands/run/__init__.py:run'), "failure / error reporting chain and CLI options", 8)
+
+
 def rules(tier: str) -> list:  # type: ignore[type-arg]
-    return [o1_thread_targets, o2_run_test_ladder, o3_failure_recording, o3b_run_checks, o4_status_folding, o5_exit_code, o6_marks, o7_plumbing, o8_statistic_accumulates]
+    return [o1_thread_targets, o2_run_test_ladder, o3_failure_recording, o3b_run_checks, o4_status_folding, o5_exit_code, o6_marks, o7_plumbing, o8_statistic_accumulates, rfwd_forwarding]
